@@ -1,17 +1,25 @@
 (* C15 — simplification keeps regular systems square and self-contained.  Same model as C14.
 
-   NOT proved: the square statement for detect_aliases.  Exact missing lemmas: (i) members_ok —
-   every member of an alias entry created by _make_alias is an algebraic variable and occurs in
-   one entry only (this is what the two seeded C15 changes broke: the do-not-eliminate test and
-   the swap); (ii) arel_add with two different canonical variables adds exactly one member, so
-   #dropped equations = #new members = #removed algebraic variables when no alias equation is
-   redundant.  Hence no composed C15_square / C15_closed for whole option sets; the per-pass
-   statements below compose for option sets without detect_aliases only informally.  The
-   closedness statement is false for cyclic eliminable assignments (C15_closed_cyclic_refuted,
+   Round 3: detect_aliases is proved square (C15_square_detect_aliases) from the invariant
+   `relinv` of the alias relation (member names pairwise distinct, no canonical is a member, no
+   member in do_not_eliminate — preserved by _make_alias thanks to the swap and the
+   do-not-eliminate test; an add that joins two classes adds exactly one member), and the square
+   bookkeeping is composed for _simplify_once and simplify() (C15_simplify_once_square,
+   C15_square) for every subset of the modelled options, hypotheses (run_ok (passes15 o)) stated on
+   the model reaching detect_aliases: relinv holds there (trivial in the first iteration: the
+   relation is empty), the symbols of recognised alias equations are declared (no alias with
+   `time`), no alias equation is redundant (da_nored; true for regular models), plus NoDup of the
+   algebraic variables.  The contradictory pair (d2f54aa) is covered: the equation is kept.
+   STILL OPEN (`_partial`): composed C15_closed.  Missing lemmas: closedness of detect_aliases
+   (symbols of the substituted values are the canonical variables, which stay declared: needs
+   `canonical in all_states` from the `bad` test) and of the three value loops for chained
+   definitions (resolved values only use declared symbols: needs acyclic + the declaredness of
+   the original values); propagation of relinv from one outer iteration to the next.
+   The closedness statement is false for cyclic eliminable assignments (C15_closed_cyclic_refuted,
    known finding) and is proved under the hypothesis that carves exactly that out. *)
 From Coq Require Import ZArith QArith Qcanon List Bool PArith.
 Import ListNotations.
-From PV Require Import Model.C14_simplify Proofs.C14_simplify Proofs.C14_compose.
+From PV Require Import Model.C14_simplify Proofs.C14_simplify Proofs.C14_compose Proofs.C15_square Proofs.C14_example.
 
 (* eliminate_constant_assignments: every dropped equation is paired with exactly one removed
    algebraic variable (which becomes a constant); states and derivatives are untouched *)
@@ -34,6 +42,40 @@ Theorem C15_square_eliminable (mt : list name) (m : model) :
   /\ params m' = params m /\ consts m' = consts m.
 Proof. exact (square_eliminate_vars mt m). Qed.
 Print Assumptions C15_square_eliminable.
+
+(* detect_aliases: every dropped equation is paired with exactly one removed algebraic variable;
+   derivatives, states, inputs, parameters and constants are never eliminated *)
+Theorem C15_square_detect_aliases (ad : bool) (m : model) :
+  NoDup (algs m) -> relinv (dne_of m) (arel m) ->
+  da_decl (pc_of m) (algs m) (dne_of m) (eqs m) ->
+  da_nored ad (algs m) (ders m) (dne_of m) (pc_of m) (arel m) (eqs m) = true ->
+  failed (detect_aliases ad m) = false ->
+  let m' := detect_aliases ad m in
+  (length (algs m') + length (eqs m) = length (algs m) + length (eqs m'))%nat
+  /\ ders m' = ders m /\ states m' = states m /\ inputs m' = inputs m
+  /\ params m' = params m /\ consts m' = consts m /\ NoDup (algs m').
+Proof. exact (square_detect_aliases ad m). Qed.
+Print Assumptions C15_square_detect_aliases.
+
+(* `sq m m'`: |der_states| + |alg_states| - |equations| is unchanged and der_states, states, inputs
+   are untouched.  _simplify_once: the seven modelled passes in the code's order, any option subset *)
+Theorem C15_simplify_once_square (o : options) (m : model) :
+  run_ok (passes15 o) m -> NoDup (algs m) -> failed (simplify_once o m) = false ->
+  sq m (simplify_once o m) /\ NoDup (algs (simplify_once o m)).
+Proof. exact (simplify_once_square o m). Qed.
+Print Assumptions C15_simplify_once_square.
+
+(* simplify(): the outer iteration with SIMPLIFICATION_LOOP_LIMIT *)
+Theorem C15_square (o : options) (m : model) :
+  loop_ok15 SIMPLIFICATION_LOOP_LIMIT o 0%nat m -> NoDup (algs m) -> failed (simplify o m) = false ->
+  sq m (simplify o m).
+Proof. exact (simplify_loop_square o SIMPLIFICATION_LOOP_LIMIT 0%nat m). Qed.
+Print Assumptions C15_square.
+
+(* non-vacuity: all hypotheses of C15_square are proved for the regular example *)
+Example C15_square_example : sq m_ex (simplify o_ex m_ex).
+Proof. exact ex_square. Qed.
+Print Assumptions C15_square_example.
 
 (* any substituting pass: if every symbol outside dom s was declared (D) and the substituted
    values only use declared symbols, the substituted equations only use declared symbols —
